@@ -271,8 +271,10 @@ class FibRun:
             if it['params'] or it['signed']:
                 app_param = b'' if it.get('pe') else b'P%d' % i
             if it['signed']:
-                from ndn.security.signer import DigestSha256Signer
-                signer = DigestSha256Signer()
+                # who signed does not matter for the gate: a signed Interest is one that carries SignatureInfo - also when
+                # its SignatureValue is empty (NullSigner) - and the validator in force decides
+                from ndn.security.signer import DigestSha256Signer, NullSigner, HmacSha256Signer
+                signer = (DigestSha256Signer(), NullSigner(), HmacSha256Signer('/fib/KEY/k', b'0123456789abcdef'))[i % 3]
             # life 400 ticks stands for "no InterestLifetime element": the default of 4000 ms applies
             life_ms = None if it['life'] == 400 else it['life'] * TICK_MS
             # components below every attached prefix do not change the route; unusual ones must not disturb delivery
@@ -290,7 +292,7 @@ class FibRun:
                 els = [(0x07, comps), (0x0a, (NONCE0 + i).to_bytes(4, 'big'))]
                 if life_ms is not None:
                     els.append((0x0c, life_ms))
-                els += [(0x2c, [(0x1b, 0)]), (0x2e, bytes(32))]
+                els += [(0x2c, [(0x1b, 0)]), (0x2e, bytes(32) if i % 2 else b'')]
                 w = st.write_tlv([(0x05, els)])
                 fullname = enc.parse_interest(w)[0]
             else:
